@@ -85,6 +85,11 @@ class World:
     def make_exc(self, e):
         cls, tag = e
         k = self.cls(cls)
+        if cls == MULTI_CLS:
+            # a member that is itself an (empty) MultipleExceptions: nothing to unpack, it is reported itself, as an error
+            x = k()
+            x.verif = [cls, tag]
+            return x
         if k is unittest.SkipTest or (isinstance(k, type) and issubclass(k, unittest.SkipTest)):
             x = k(self.reason_text(tag))
         else:
@@ -426,6 +431,10 @@ def build_case(w, prog, log, clock, scratch, sink_factory, hints=()):
     def call_fn(fn=None):
         return fn()
 
+    def call_kw(**kw):      # (a cleanup whose one keyword argument may have ANY name)
+        (thunk,) = kw.values()
+        return thunk()
+
     def run_stage(case, st, upcall=None):
         _, sid, acts, term = st
         clock.t += 1
@@ -459,6 +468,11 @@ def build_case(w, prog, log, clock, scratch, sink_factory, hints=()):
             if k == 'cleanup' and ['kwfn', a[1][1]] in hints:
                 # realisation hint ['kwfn', id of the cleanup stage]: the cleanup takes a keyword argument called fn
                 case.addCleanup(call_fn, fn=(lambda _c=a[1]: run_stage(case, _c)))
+            elif k == 'cleanup' and any(isinstance(h, list) and len(h) == 3 and h[:2] == ['kwfn', a[1][1]] for h in hints):
+                # ['kwfn', id, name]: ... called `name`, one of the parameter names of the functions the keyword travels through
+                # (harness/kwnames.py: addCleanup, _run_cleanups, _run_user, ... - a name collides unless that parameter is positional-only)
+                name = [h[2] for h in hints if isinstance(h, list) and len(h) == 3 and h[:2] == ['kwfn', a[1][1]]][0]
+                case.addCleanup(call_kw, **{name: (lambda _c=a[1]: run_stage(case, _c))})
             elif k == 'cleanup':
                 case.addCleanup(run_stage, case, a[1])
             elif k == 'addDetail':
@@ -490,7 +504,21 @@ def build_case(w, prog, log, clock, scratch, sink_factory, hints=()):
                 raise AssertionError('harness: helper did not raise')
             raise w.make_exc(term[1])
         if k == 'raiseMulti':
-            me = w.MultipleExceptions(*[exc_info_of(w.make_exc(e)) for e in term[1]])
+            infos = [exc_info_of(w.make_exc(e)) for e in term[1]]
+            # realisation hint ['nest-multi', sid, k]: the same members, in the same order, grouped into nested
+            # MultipleExceptions (a fixture that uses fixtures): 1 = all inside one inner one, 2 = the tail inside an inner
+            # one, 3 = head and tail each inside an inner one, 4 = two levels around everything
+            nest = next((h[2] for h in hints if isinstance(h, list) and h[0] == 'nest-multi' and h[1] == sid), 0)
+            wrap = lambda xs: exc_info_of(w.MultipleExceptions(*xs))
+            if infos and nest == 1:
+                infos = [wrap(infos)]
+            elif len(infos) > 1 and nest == 2:
+                infos = infos[:1] + [wrap(infos[1:])]
+            elif len(infos) > 1 and nest == 3:
+                infos = [wrap(infos[:1]), wrap(infos[1:])]
+            elif infos and nest == 4:
+                infos = [wrap([wrap(infos)])]
+            me = w.MultipleExceptions(*infos)
             me.verif = term[2]
             raise me
         if k == 'assertFail':
@@ -569,10 +597,17 @@ def build_case(w, prog, log, clock, scratch, sink_factory, hints=()):
                 finally:
                     w.in_user_reporter = False
         hcls = {'exc': Exception, 'base': BaseException}.get(cls) if isinstance(cls, str) else None
+        hcls = hcls or w.cls(cls)
+        # realisation hint ['tuple-handler', k]: the class slot of every user handler is a tuple of classes (legal for
+        # isinstance(), and how one handler is registered for several classes): the class alone, or next to a class
+        # that nothing ever raises
+        tk = next((h[1] for h in hints if isinstance(h, list) and h[0] == 'tuple-handler'), 0)
+        if tk:
+            hcls = [(hcls,), (NeverRaised, hcls), (hcls, NeverRaised), ((hcls,), NeverRaised)][tk - 1]
         if ['late-handlers'] in hints:
-            pending_handlers.append((hcls or w.cls(cls), fn))
+            pending_handlers.append((hcls, fn))
         else:
-            case.exception_handlers.insert(0, (hcls or w.cls(cls), fn))
+            case.exception_handlers.insert(0, (hcls, fn))
     for h in range(n_on_exc):
         case.addOnException(lambda exc_info, _h=h: log.append(['onExc', _h, w.canon_exc(exc_info[1])]))
     if ['clone'] in hints:
@@ -582,6 +617,10 @@ def build_case(w, prog, log, clock, scratch, sink_factory, hints=()):
         import testtools.testcase as ttc
         case = ttc.clone_test_with_new_id(case, case.id())
     return case
+
+
+class NeverRaised(Exception):
+    """an exception class no test program raises (filler for tuple-valued handler classes)"""
 
 
 class EqualToEverything:
@@ -842,7 +881,10 @@ class Gen:
             term = ['raise1', self.exc()]
         elif r < quiet + (1 - quiet) * 0.78 and not deco:
             n = rng.choice([0, 1, 2, 2, 3])
-            term = ['raiseMulti', [self.exc() for _ in range(n)], [MULTI_CLS, 0]]
+            # a quarter of the members are themselves empty MultipleExceptions (sometimes all of them); like the outer object
+            # they carry tag 0: an empty MultipleExceptions has no message to put a tag in
+            pm = rng.choice([0.0, 0.0, 0.25, 1.0])
+            term = ['raiseMulti', [[MULTI_CLS, 0] if rng.random() < pm else self.exc() for _ in range(n)], [MULTI_CLS, 0]]
         elif r < quiet + (1 - quiet) * 0.88:
             self.mid += 1
             self.tag += 1
@@ -922,7 +964,9 @@ def gen_input(rng, focus='all'):
     for st in all_stages(prog):
         for a in st[2]:
             if a[0] == 'cleanup' and rng.random() < 0.15:
-                hints.append(['kwfn', a[1][1]])
+                from harness import kwnames
+                name = rng.choice(['fn'] + kwnames.names())
+                hints.append(['kwfn', a[1][1]] if name == 'fn' else ['kwfn', a[1][1], name])
     if rng.random() < 0.2:
         tags = [st[3][1][1] for st in all_stages(prog) if isinstance(st[3], list) and st[3][0] == 'raise1' and st[3][1][0] == 'skip']
         if prog[1] is not None:
@@ -935,7 +979,10 @@ def gen_input(rng, focus='all'):
         tags += [st[3][1] for st in all_stages(prog) if isinstance(st[3], list) and st[3][0] == 'expectFailure']
         if prog[1] is not None:
             tags += [prog[1][1]] * 3
-        if tags:
+        # not next to a user handler that reports a skip with whatever details there are: through a result without details
+        # its reason is the empty string too, and the canonical form could not tell the two empty reasons apart
+        own_skip = any(rep[0] != 'std' and rep[-1] == 'skip' for _, rep in prog[6])
+        if tags and not own_skip:
             hints.append(['empty-reason', rng.choice(tags)])
     if prog[1] is not None:
         k = rng.randrange(8)
@@ -945,6 +992,11 @@ def gen_input(rng, focus='all'):
         hints.append(['late-handlers'])
     if rng.random() < 0.15:
         hints.append(['clone'])
+    if prog[6] and rng.random() < 0.3:
+        hints.append(['tuple-handler', rng.randrange(1, 5)])
+    for st in all_stages(prog):
+        if isinstance(st[3], list) and st[3][0] == 'raiseMulti' and st[3][1] and rng.random() < 0.5:
+            hints.append(['nest-multi', st[1], rng.randrange(1, 5)])
     if rng.random() < (0.35 if runs > 1 else 0.1):
         hints.append(['uniq', rng.randrange(1, 4)])
     if any(a[0] in ('useFixture', 'addDetail', 'expectThat') for st in all_stages(prog) for a in st[2]) or \
@@ -988,7 +1040,7 @@ def exc_kinds(prog):
 
 def features(inp, traces):
     prog, runs = inp[0], inp[1]
-    f = ['flavour=' + prog[-1], 'runs=%d' % runs] + (['hint:fixture-getDetails-raises'] if len(inp) > 2 and any(isinstance(h, int) for h in inp[2]) else []) + ['hint:skip-decorator-%d' % h[1] for h in (inp[2] if len(inp) > 2 else []) if isinstance(h, list) and h[0] == 'skip'] + ['hint:%s' % h[0] for h in (inp[2] if len(inp) > 2 else []) if isinstance(h, list) and h[0] in ('late-upcall', 'runner', 'empty-reason', 'object-reason', 'kwfn', 'late-handlers', 'clone', 'volatile', 'uniq')] + ['hint:retval-%d' % h[2] for h in (inp[2] if len(inp) > 2 else []) if isinstance(h, list) and h[0] == 'retval'] + ['hint:scratch-%d' % h[1] for h in (inp[2] if len(inp) > 2 else []) if isinstance(h, list) and h[0] == 'scratch'] + ['hint:helper-raises' for h in (inp[2] if len(inp) > 2 else []) if isinstance(h, list) and h[0] == 'api'][:1]
+    f = ['flavour=' + prog[-1], 'runs=%d' % runs] + (['hint:fixture-getDetails-raises'] if len(inp) > 2 and any(isinstance(h, int) for h in inp[2]) else []) + ['hint:skip-decorator-%d' % h[1] for h in (inp[2] if len(inp) > 2 else []) if isinstance(h, list) and h[0] == 'skip'] + ['hint:%s' % h[0] for h in (inp[2] if len(inp) > 2 else []) if isinstance(h, list) and h[0] in ('late-upcall', 'runner', 'empty-reason', 'object-reason', 'kwfn', 'late-handlers', 'clone', 'nest-multi', 'tuple-handler', 'volatile', 'uniq')] + ['hint:retval-%d' % h[2] for h in (inp[2] if len(inp) > 2 else []) if isinstance(h, list) and h[0] == 'retval'] + ['hint:scratch-%d' % h[1] for h in (inp[2] if len(inp) > 2 else []) if isinstance(h, list) and h[0] == 'scratch'] + ['hint:helper-raises' for h in (inp[2] if len(inp) > 2 else []) if isinstance(h, list) and h[0] == 'api'][:1]
     sts = list(all_stages(prog))
     faulty = [s for s in sts if s[3] != 'ret']
     f.append('stages=%s' % (len(sts) if len(sts) < 8 else '8+'))
